@@ -12,7 +12,7 @@ def sh(cmd, **kw):
     p = subprocess.run(cmd, shell=True, cwd=wt, env=env, capture_output=True, text=True, **kw)
     return p.returncode, (p.stdout + p.stderr)[-2500:]
 def clean():
-    sh("git checkout -- . && git clean -fdq -e target -e Cargo.lock")
+    sh("git reset -q --hard && git clean -fdq -e target -e Cargo.lock")
 res = {"seed": os.path.basename(seed), "property": meta.get("property"), "at": time.strftime("%F %T")}
 clean()
 demo_cmd = meta["demo_cmd"]
@@ -23,14 +23,22 @@ res["demo_applies"] = rc == 0
 rc, o = sh(demo_cmd, timeout=3600)
 res["demo_passes_without_patch"] = rc == 0
 res["demo_without_log"] = o[-600:]
-rc, o = sh("git apply --whitespace=nowarn %s/patch.diff" % seed)
+def apply_patch():
+    rc, o = sh("git apply --whitespace=nowarn %s/patch.diff" % seed)
+    if rc != 0:  # base moved (later fix commits): try a 3-way merge of the patch
+        rc, o = sh("git apply --3way --whitespace=nowarn %s/patch.diff" % seed)
+        res["patch_needed_3way"] = True
+        if rc == 0 and "with conflicts" in o:
+            rc = 1
+    return rc, o
+rc, o = apply_patch()
 res["patch_applies"] = rc == 0
 rc, o = sh(demo_cmd, timeout=3600)
 res["demo_fails_with_patch"] = rc != 0 and ("test result: FAILED" in o or "panicked" in o or "FAILED" in o)
 res["demo_with_log"] = o[-900:]
 # the suite on the patched tree, without the demo
 clean()
-sh("git apply --whitespace=nowarn %s/patch.diff" % seed)
+apply_patch()
 p = subprocess.run([sys.executable, os.path.join(os.path.dirname(os.path.abspath(__file__)), "baseline.py"), wt], capture_output=True, text=True)
 res["suite_passes_with_patch"] = p.returncode == 0
 res["suite_log"] = p.stdout[-1500:]
